@@ -1,10 +1,148 @@
 import CoxeterVerif.Driver.Proto
+import CoxeterVerif.Model.Constructors
+import CoxeterVerif.Spec.Constructors
 
 namespace OpsC15
+open C15
+
+def rdP2 {α} [Codec α] (c : Ctx) : Rd (P2 α) := do
+  let x ← Rd.sc c; let y ← Rd.sc c; pure ⟨x, y⟩
+
+def rdBool (c : Ctx) : Rd Bool := do let v ← Rd.int c; pure (v != 0)
+
+/-- optional normal: flag then 3 scalars (always present) -/
+def rdNormal {α} [Codec α] (c : Ctx) : Rd (Option (V3 α)) := do
+  let has ← rdBool c
+  let n ← Rd.v3 c
+  pure (if has then some n else none)
+
+def outV3s {α} [Codec α] (l : List (V3 α)) : String := " ".intercalate (l.map Out.v3)
+
+def srcInt : Src → Int
+  | .fresh => 0
+  | .caller => 1
+
+/-- reply of a model decision: `E:<kind>` or the payload -/
+def reply {β} (r : Except String β) (f : β → String) : String :=
+  match r with
+  | .error e => s!"E:{e}"
+  | .ok v => f v
+
+/-- slack of the two `np.isclose` decisions of `Polygon.__init__` (positive = passes):
+    normal test `tol − ||c·n| − 1|` (0 if no normal supplied) and the coplanarity loop
+    `min_v (tol − |n·v − d|)` with the normal the constructor would use. -/
+def slacks {α} [Scalar α] (ncols : Nat) (rows : List (V3 α)) (normal : Option (V3 α)) (ptol : α) : α × α :=
+  let verts := rows.map (pad ncols)
+  let computed := cornerNormal verts
+  let (n, s1) : V3 α × α := match normal with
+    | none => (computed, Scalar.lit 1)
+    | some nv =>
+      let nn := V3.sdiv nv (V3.norm nv)
+      (nn, (atolDefault + rtolDefault * Scalar.abs (Scalar.lit 1))
+            - Scalar.abs (Scalar.abs (V3.dot computed nn) - Scalar.lit 1))
+  let d := V3.dot n (verts.getD 0 V3.zero)
+  let tol := atolDefault + ptol * Scalar.abs d
+  let s2 := verts.foldl (fun m v => Scalar.min m (tol - Scalar.abs (V3.dot n v - d))) tol
+  (s1, s2)
 
 /-- driver ops of C15. `none` = unknown op. -/
 def run (α : Type) [Scalar α] [Codec α] (op : String) (c : Ctx) : Option (Rd String) :=
   match op with
+  | "c15.polygon" => some do
+      -- in: ndim ncols rows hasNormal normal(3) ptol testSimple aligned ; out: normal(3) vsrc nsrc | E:
+      let ndim ← Rd.nat c; let ncols ← Rd.nat c
+      let rows : List (V3 α) ← Rd.list c (Rd.v3 c)
+      let normal ← rdNormal c
+      let ptol : α ← Rd.sc c
+      let ts ← rdBool c
+      let aligned : List (V3 α) ← Rd.list c (Rd.v3 c)
+      let r := Polygon.new ndim ncols rows normal ptol ts (fun _ _ => aligned)
+      pure (reply r fun p => s!"{Out.v3 p.normal} {Out.int (srcInt p.verticesSrc)} {Out.int (srcInt p.normalSrc)}")
+  | "c15.slacks" => some do
+      -- in: ncols rows hasNormal normal(3) ptol ; out: normalSlack planarSlack
+      let ncols ← Rd.nat c
+      let rows : List (V3 α) ← Rd.list c (Rd.v3 c)
+      let normal ← rdNormal c
+      let ptol : α ← Rd.sc c
+      let s := slacks ncols rows normal ptol
+      pure s!"{Out.sc s.1} {Out.sc s.2}"
+  | "c15.simple" => some do
+      -- in: planar (aligned) vertices ; out: `_is_simple` of the model
+      let pl : List (V3 α) ← Rd.list c (Rd.v3 c)
+      pure (Out.bool (isSimple pl))
+  | "c15.convexpolygon" => some do
+      -- in: ndim ncols rows hasNormal normal(3) ptol hullCount alignedCentred ; out: normal(3) n vertices(3n) | E:
+      let ndim ← Rd.nat c; let ncols ← Rd.nat c
+      let rows : List (V3 α) ← Rd.list c (Rd.v3 c)
+      let normal ← rdNormal c
+      let ptol : α ← Rd.sc c
+      let hc ← Rd.nat c
+      let aligned : List (V3 α) ← Rd.list c (Rd.v3 c)
+      let r := ConvexPolygon.new ndim ncols rows normal ptol (fun _ _ => hc) (fun _ _ => aligned)
+      pure (reply r fun p => s!"{Out.v3 p.normal} {Out.int p.vertices.length} {outV3s p.vertices}")
+  | "c15.spheropolygon" => some do
+      -- in: ndim ncols rows radius hasNormal normal(3) hullCount alignedCentred ; out: radius normal(3) n vertices | E:
+      let ndim ← Rd.nat c; let ncols ← Rd.nat c
+      let rows : List (V3 α) ← Rd.list c (Rd.v3 c)
+      let radius : α ← Rd.sc c
+      let normal ← rdNormal c
+      let hc ← Rd.nat c
+      let aligned : List (V3 α) ← Rd.list c (Rd.v3 c)
+      let r := ConvexSpheropolygon.new ndim ncols rows radius normal (fun _ _ => hc) (fun _ _ => aligned)
+      pure (reply r fun s =>
+        s!"{Out.sc s.radius} {Out.v3 s.polygon.normal} {Out.int s.polygon.vertices.length} {outV3s s.polygon.vertices}")
+  | "c15.reorder" => some do
+      -- in: alignedCentred ; out: the permutation `vert_order`
+      let rot : List (V3 α) ← Rd.list c (Rd.v3 c)
+      let idx : List Int := (List.range rot.length).map Int.ofNat
+      pure (Out.ints (reorder rot idx))
+  | "c15.anglegap" => some do
+      -- in: alignedCentred ; out: the sort keys (angle, distance) per vertex, for the near-tie filter
+      let rot : List (V3 α) ← Rd.list c (Rd.v3 c)
+      pure (" ".intercalate ((sortKeys rot).map fun k => s!"{Out.sc k.1} {Out.sc k.2}"))
+  | "c15.convexpolyhedron" => some do
+      -- in: rows hull (count, or -1 = QhullError) ; out: n src | E:
+      let rows : List (V3 α) ← Rd.list c (Rd.v3 c)
+      let h ← Rd.int c
+      let hull : List (V3 α) → Except String Nat := fun _ => if h < 0 then .error "other:QhullError" else .ok h.toNat
+      pure (reply (ConvexPolyhedron.new rows hull) fun p =>
+        s!"{Out.int p.vertices.length} {Out.int (srcInt p.verticesSrc)}")
+  | "c15.spheropolyhedron" => some do
+      let rows : List (V3 α) ← Rd.list c (Rd.v3 c)
+      let radius : α ← Rd.sc c
+      let h ← Rd.int c
+      let hull : List (V3 α) → Except String Nat := fun _ => if h < 0 then .error "other:QhullError" else .ok h.toNat
+      pure (reply (ConvexSpheropolyhedron.new rows radius hull) fun s =>
+        s!"{Out.sc s.radius} {Out.int s.polyhedron.vertices.length}")
+  | "c15.circle" => some do
+      let r : α ← Rd.sc c; let ce : V3 α ← Rd.v3 c
+      pure (reply (Circle.new r ce) fun o => s!"{Out.sc o.radius} {Out.v3 o.centroid} {Out.int (srcInt o.centroidSrc)}")
+  | "c15.sphere" => some do
+      let r : α ← Rd.sc c; let ce : V3 α ← Rd.v3 c
+      pure (reply (Sphere.new r ce) fun o => s!"{Out.sc o.radius} {Out.v3 o.centroid} {Out.int (srcInt o.centroidSrc)}")
+  | "c15.ellipse" => some do
+      let a : α ← Rd.sc c; let b : α ← Rd.sc c; let ce : V3 α ← Rd.v3 c
+      pure (reply (Ellipse.new a b ce) fun o =>
+        s!"{Out.sc o.a} {Out.sc o.b} {Out.v3 o.centroid} {Out.int (srcInt o.centroidSrc)}")
+  | "c15.ellipsoid" => some do
+      let a : α ← Rd.sc c; let b : α ← Rd.sc c; let cc : α ← Rd.sc c; let ce : V3 α ← Rd.v3 c
+      pure (reply (Ellipsoid.new a b cc ce) fun o =>
+        s!"{Out.sc o.a} {Out.sc o.b} {Out.sc o.c} {Out.v3 o.centroid} {Out.int (srcInt o.centroidSrc)}")
+  | "spec.c15.simple" => some do
+      -- in: 2-D points ; out: Spec.simple  Spec.edgesOK  Spec.distinct
+      let pts : List (P2 α) ← Rd.list c (rdP2 c)
+      pure s!"{Out.bool (Spec.simple pts)} {Out.bool (Spec.edgesOK pts)} {Out.bool (Spec.distinct pts)}"
+  | "spec.c15.segmeet" => some do
+      let a : P2 α ← rdP2 c; let b : P2 α ← rdP2 c; let cc : P2 α ← rdP2 c; let d : P2 α ← rdP2 c
+      pure (Out.bool (Spec.segMeet a b cc d))
+  | "spec.c15.convexpos2" => some do
+      let pts : List (P2 α) ← Rd.list c (rdP2 c)
+      pure (Out.bool (Spec.convexPosition2 pts))
+  | "spec.c15.ccw" => some do
+      -- in: normal vertices ; out: Spec.ccwConvex
+      let n : V3 α ← Rd.v3 c
+      let vs : List (V3 α) ← Rd.list c (Rd.v3 c)
+      pure (Out.bool (Spec.ccwConvex n vs))
   | _ => none
 
 end OpsC15
